@@ -78,12 +78,13 @@ inline int Main(int argc, char** argv, const char* id, const std::function<Confi
     auto& E = vx::ev();
     Configs configs = configure();
     if (!vx::ctx().replay.empty()) {
-        // the replay file names the configuration in its key line; default: first
-        std::ifstream f(vx::ctx().replay);
-        std::string line, cfg;
-        while (std::getline(f, line)) { size_t p = line.find("cfg="); if (line.rfind("# key=", 0) == 0 && p != std::string::npos) cfg = line.substr(p + 4, line.find_first_of(":/ ", p + 4) - p - 4); }
-        for (auto& [tag, o] : configs) if (tag == cfg || cfg.empty()) return RunOne(id, o, mon, tag, true);
-        return RunOne(id, configs[0].second, mon, configs[0].first, true);
+        // a replay file does not name the node configuration: replay the history on every configuration
+        int rc = 0;
+        for (auto& [tag, o] : configs) {
+            printf("---- replay on configuration '%s'\n", tag.c_str());
+            if (RunOne(id, o, mon, tag, true)) rc = 1;
+        }
+        return rc;
     }
     int gate = 0;
     for (auto& [tag, o] : configs) {
